@@ -36,9 +36,11 @@ VARIABLES
   tgt,     \* ids of the rows of the recorded run, in order
   sel,     \* selection of the virtual ECU
   srv,     \* replaying server [st, cur]  (UDSServer.state, DBUDSServer.last_response)
-  obs      \* per replayed request [ss, rep, cur]
+  obs,     \* per replayed request [ss, rep, cur]
+  vd       \* contract verdict on the observation so far (a function of the other variables;
+           \* kept in a variable so that it is evaluated once per state)
 
-vars == <<phase, cState, rows, tgt, sel, srv, obs>>
+vars == <<phase, cState, rows, tgt, sel, srv, obs, vd>>
 
 D == [s18 |-> Dev_S18_ResetOnSilentRow, s19 |-> Dev_S19_ClientTracksSessionRead,
       s31 |-> Dev_S31_StringPropertyQuoted]
@@ -72,7 +74,7 @@ EffAbs(req, rsp) ==
 ----------------------------------------------------------------------------
 Init ==
   /\ phase = "rec" /\ cState = Default /\ rows = <<>> /\ tgt = <<>>
-  /\ sel = NoSel /\ srv = Fresh /\ obs = <<>>
+  /\ sel = NoSel /\ srv = Fresh /\ obs = <<>> /\ vd = <<"ok", "checked", 0>>
 
 NForeign == Cardinality({i \in 1..Len(rows) : rows[i].run # "tgt"})
 
@@ -80,7 +82,7 @@ NForeign == Cardinality({i \in 1..Len(rows) : rows[i].run # "tgt"})
 AddForeign ==
   /\ phase = "rec" /\ NForeign < MaxForeign
   /\ \E r \in ForeignRows : rows' = Append(rows, r)
-  /\ UNCHANGED <<phase, cState, tgt, sel, srv, obs>>
+  /\ UNCHANGED <<phase, cState, tgt, sel, srv, obs, vd>>
 
 (* ECU._request: the row carries the state BEFORE the exchange, then update_state
    is applied iff there was a response *)
@@ -92,14 +94,27 @@ Record ==
                                 ecu |-> TargetEcu, props |-> TargetProps])
        /\ tgt' = Append(tgt, Len(rows) + 1)
        /\ cState' = IF rsp = NoReply THEN cState ELSE ClientUpd(cState, e)
-  /\ UNCHANGED <<phase, sel, srv, obs>>
+  /\ UNCHANGED <<phase, sel, srv, obs, vd>>
 
 (* gallia vecu db ... --ecu / --properties : a fresh server, default state, cursor -1 *)
 Begin ==
   /\ phase = "rec" /\ Len(tgt) >= 1
   /\ \E s \in Selectors : sel' = s
   /\ phase' = "rep" /\ srv' = Fresh /\ obs' = <<>>
-  /\ UNCHANGED <<cState, rows, tgt>>
+  /\ UNCHANGED <<cState, rows, tgt, vd>>
+
+(* the observation handed to the contract *)
+TargetOnly == [i \in 1..Len(tgt) |-> rows[tgt[i]]]
+Reqs       == [i \in 1..Len(tgt) |-> rows[tgt[i]].req]
+Isolating  == \A i \in 1..Len(rows) : Selected(Intended, sel, rows[i]) <=> rows[i].run = "tgt"
+BaseObs    == IF NForeign = 0 THEN <<>> ELSE Replay(D, TargetOnly, NoSel, Reqs)
+
+XOf(o) == [steps |-> [i \in 1..Len(o) |->
+                   [req |-> rows[tgt[i]].req, rec |-> rows[tgt[i]].rsp, rep |-> o[i].rep,
+                    cs |-> rows[tgt[i]].st, ss |-> o[i].ss]],
+      base |-> [i \in 1..Len(BaseObs) |-> BaseObs[i].rep],
+      isolating |-> Isolating,
+      oob |-> <<>>]
 
 Hist == [i \in 1..Len(tgt) |-> <<rows[tgt[i]].req, rows[tgt[i]].rsp>>]
 
@@ -111,6 +126,7 @@ Step ==
      IN /\ obs' = Append(obs, [ss |-> srv.st, rep |-> n.rep, cur |-> n.cur])
         /\ srv' = [st |-> n.st, cur |-> n.cur]
         /\ phase' = IF k = Len(tgt) THEN "done" ELSE "rep"
+        /\ vd' = Verdict(XOf(obs'))
         /\ (k = Len(tgt) /\ Export) => PrintT(<<"B", Hist, obs', sel, NForeign>>)
   /\ UNCHANGED <<cState, rows, tgt, sel>>
 
@@ -118,20 +134,8 @@ Next == AddForeign \/ Record \/ Begin \/ Step
 Spec == Init /\ [][Next]_vars
 
 ----------------------------------------------------------------------------
-(* the observation handed to the contract *)
-TargetOnly == [i \in 1..Len(tgt) |-> rows[tgt[i]]]
-Reqs       == [i \in 1..Len(tgt) |-> rows[tgt[i]].req]
-Isolating  == \A i \in 1..Len(rows) : Selected(Intended, sel, rows[i]) <=> rows[i].run = "tgt"
-BaseObs    == IF NForeign = 0 THEN <<>> ELSE Replay(D, TargetOnly, NoSel, Reqs)
-
-X == [steps |-> [i \in 1..Len(obs) |->
-                   [req |-> rows[tgt[i]].req, rec |-> rows[tgt[i]].rsp, rep |-> obs[i].rep,
-                    cs |-> rows[tgt[i]].st, ss |-> obs[i].ss]],
-      base |-> [i \in 1..Len(BaseObs) |-> BaseObs[i].rep],
-      isolating |-> Isolating,
-      oob |-> <<>>]
-
-V == IF phase = "rec" THEN <<"ok", "checked", 0>> ELSE Verdict(X)
+V == vd
+VerdictIsFunctionOfState == phase = "done" => vd = Verdict(XOf(obs))
 
 Y0_TrackersAgree      == V[1] # LblY0
 Y1_RepliesAsRecorded  == V[1] \notin Y1Labels
